@@ -449,7 +449,7 @@ Lemma transfer_ok s a c t n u h d r s' : transfer s a c t n u h d r = Some s' ->
     /\ ((changes n u h d = false /\ s' = transfer_state c t r s)
         \/ (s' = transfer_state c t r (with_nfts s (set (c, t) (apply_changes m n u h d) (nfts s))))).
 Proof.
-  unfold transfer. destruct (denom_ok c && addr_ok a && addr_ok r && json_or_empty_or_dnm d && token_ok t) eqn:Hv; [|discriminate].
+  unfold transfer. destruct (denom_ok c && addr_ok a && addr_ok r && uri_ok u && json_or_empty_or_dnm d && token_ok t) eqn:Hv; [|discriminate].
   split_andb Hv.
   destruct (get (c, t) (nfts s)) as [m|] eqn:Hm; [|discriminate].
   destruct (authorize s c t a) eqn:Ha; simpl; [|discriminate]. apply authorize_spec in Ha.
